@@ -194,6 +194,7 @@ def a01_constructors(ctx, groups=None, rule_id='A01', title=None, labels=None, m
     eps = entry_points(m)
     n = 0
     undec = {}
+    foreign = {}
     loops = {}
     tot_discharged = tot_manual = tot_doc = 0
     kinds = {}
@@ -216,6 +217,8 @@ def a01_constructors(ctx, groups=None, rule_id='A01', title=None, labels=None, m
             kinds[k] = kinds.get(k, 0) + v
         for k, v in ex.undecided_callees.items():
             undec.setdefault(k, label)
+        for k, v in getattr(ex, 'foreign_unmodelled', {}).items():
+            foreign.setdefault(k, label)
         for k, v in ex.undecided_loops.items():
             loops.setdefault(k, label)
         nman, ndoc = report(r, label, ex, documented=(group == 'window-ctor'))
@@ -230,6 +233,8 @@ def a01_constructors(ctx, groups=None, rule_id='A01', title=None, labels=None, m
     r.info.update({'entries': n, 'entries_by_group': per_group, 'panic_sites_refuted': tot_discharged, 'refuted_by_kind': kinds,
                    'discharged_by_recorded_argument': tot_manual, 'documented_panics_accepted': tot_doc,
                    'recorded_arguments': {'|'.join(k): v for k, v in ABSINT_MANUAL.items()}})
+    for k, lab in sorted(foreign.items()):
+        r.undecided.append('std function without a summary, over-approximated (any result, no panic assumed): %s, first met in %s' % (k, lab))
     if undec:
         raise Broken('abstract interpreter met callees without a summary: %s' % sorted(undec.items())[:8])
     if loops:
